@@ -343,11 +343,17 @@ pub fn run(ctx: &Ctx) -> i32 {
     known_reproducer(&mut rep);
     run_cases(ctx, &mut rep, "silence", ctx.cases(150_000, 3_000_000), case_silence);
     run_cases(ctx, &mut rep, "better-master", ctx.cases(100_000, 2_000_000), case_master);
+    // the real daemon as the host: its timer handling in statime-linux/src/main.rs, in real time
+    let workers = (ctx.threads as u64 / 2).clamp(2, 8);
+    let sum = crate::daemon::run_part(ctx, &mut rep, ctx.cases(3 * workers, 100 * workers), workers);
+    if let Some(why) = &sum.skipped {
+        println!("note: end-to-end daemon part skipped ({}); the other parts are unaffected", why);
+    }
     finish(
         Finish {
             ctx,
             level: "exploration",
-            rule: "prefix: random history (<= 40 ops, thorough 150) over the C08 alphabet executed under the host timer model (a timer fires only if an action armed it, at its deadline; transmit timestamps may be returned late or never; masters come and go; P2P double responders and clean exchanges; run-time slave-only switches); continuation (a) total silence, (b) a better master announcing every interval with Sync/Follow_Up, both run with the daemon's loop (timers as armed, periodic BMCA, immediate transmit timestamps). Oracle (a): within 2*receiptTimeout+6 announce intervals every port that is not Faulty at the end of the prefix is Master (slave-only: Listening with a live receipt timer) and then emits 8+-1 Announces and the configured number (+-1) of Sync/Follow_Up pairs per 8 announce intervals; (b) port 1 is slave of that master within the same bound and its delay requests are never more than 2 delay intervals apart. Non-trivial = prefix ends with some port not Listening or contains a slave-only switch; distinct by (end-state vector, armed-timer vector, prefix).",
+            rule: "prefix: random history (<= 40 ops, thorough 150) over the C08 alphabet executed under the host timer model (a timer fires only if an action armed it, at its deadline; transmit timestamps may be returned late or never; masters come and go; P2P double responders and clean exchanges; run-time slave-only switches); continuation (a) total silence, (b) a better master announcing every interval with Sync/Follow_Up, both run with the daemon's loop (timers as armed, periodic BMCA, immediate transmit timestamps). Oracle (a): within 2*receiptTimeout+6 announce intervals every port that is not Faulty at the end of the prefix is Master (slave-only: Listening with a live receipt timer) and then emits 8+-1 Announces and the configured number (+-1) of Sync/Follow_Up pairs per 8 announce intervals; (b) port 1 is slave of that master within the same bound and its delay requests are never more than 2 delay intervals apart. Part daemon: the real statime daemon (two-port boundary clock, private network namespace, announce/sync interval 125 ms, delay interval 250 ms) in real time with explicit bounds: steady-state rates of Announce, Sync (master port) and Delay_Req (slave port) between 60 % and 150 % of the configured ones; after the parent falls silent for longer than receipt timeout + 2 intervals + 0.5 s the port is master and announces; after the parent returns the port is slave again within 3 intervals + 0.6 s and sends Delay_Req again within 2 delay intervals + 0.3 s. Non-trivial = prefix ends with some port not Listening or contains a slave-only switch; distinct by (end-state vector, armed-timer vector, prefix).",
             assumptions: vec!["the instance's own frames are not looped back to its other ports".into(), "ports that are Faulty at the end of the prefix are excepted; ports that were faulty and recovered are not".into()],
             min_nontrivial: 100,
         },
@@ -360,6 +366,7 @@ pub fn replay(ctx: &Ctx, path: &str) -> i32 {
     let s = std::fs::read_to_string(path).expect("read replay");
     let v: serde_json::Value = serde_json::from_str(&s).expect("parse");
     match v["part"].as_str().unwrap_or("silence") {
+        "daemon" => crate::daemon::replay_part(ctx, path, 3),
         "better-master" => replay_file(ctx, path, case_master),
         _ => replay_file(ctx, path, case_silence),
     }
